@@ -80,6 +80,9 @@ struct Thr {
   uint64_t spin_wver;
   uint64_t own_writes;
   uint64_t last_run; // step at which this thread last received the token
+  volatile int release; // set by the main thread at the end of the execution: the real thread may exit now
+  uintptr_t stack_addr;
+  char hb_token;
   int fresh;
   // history
   uint64_t hist;
@@ -277,7 +280,7 @@ static void reap_ended() {
   if (!g.ended_unreaped) return;
   for (int i = 0; i < g.nthr; i++) {
     Thr* t = &g.thr[i];
-    if (t->state == TS_FINISHED && !t->reaped) {
+    if (t->state == TS_FINISHED && t->release && !t->reaped) {
       int spins = 0;
       while (raw_syscall6(SYS_tgkill, g.pid, t->ktid, 0, 0, 0, 0) != -ESRCH) {
         if (++spins > 200000) finish_process(MC_ST_ENGINE, "thread %d did not leave the kernel", t->id);
@@ -297,7 +300,6 @@ static void wait_token(Thr* me) {
   __atomic_store_n(&me->go, 0, __ATOMIC_RELAXED);
   g.running = me->id;
   me->last_run = g.steps;
-  reap_ended();
 }
 static void give_token(Thr* to) {
   __atomic_store_n(&to->go, 1, __ATOMIC_RELEASE);
@@ -933,6 +935,8 @@ extern "C" void mc_mutex_unlocked(void* m) {
 }
 
 // ----- threads
+extern "C" void AnnotateHappensBefore(const char* f, int l, const volatile void* a) __attribute__((weak));
+extern "C" void AnnotateHappensAfter(const char* f, int l, const volatile void* a) __attribute__((weak));
 struct Sentinel {
   Thr* t;
   Sentinel() : t(0) {}
@@ -949,7 +953,14 @@ static void thread_finished(Thr* me) {
   g.wver++;
   wake_spinners();
   self_thr = 0;
+  if (AnnotateHappensBefore) AnnotateHappensBefore(__FILE__, __LINE__, &me->hb_token);
   reschedule(me);
+  // The real thread does not exit yet: it parks until the main thread releases all threads of this
+  // execution in a canonical order (descending stack address). glibc hands cached thread stacks out
+  // LIFO, so the order of real exits decides which stack (hence which thread_local addresses, hence e.g.
+  // which bucket of moodycamel's thread-id hash) the threads of the NEXT execution get; letting threads
+  // exit whenever the schedule finished them made executions depend on their predecessors.
+  while (__atomic_load_n(&me->release, __ATOMIC_ACQUIRE) == 0) raw_futex(&me->release, FUTEX_WAIT, 0, 0);
 }
 Sentinel::~Sentinel() {
   if (t && self_thr == t) thread_finished(t);
@@ -995,6 +1006,7 @@ extern "C" void mc_thread_begin(int id) {
   self_thr = t;
   tl_sentinel.t = t;
   t->ktid = (int)raw_syscall6(SYS_gettid, 0, 0, 0, 0, 0, 0);
+  t->stack_addr = (uintptr_t)&t;
   void* p = malloc(64); // pin this thread's allocator state before anyone else runs
   free(p);
   __atomic_store_n(&t->started, 1, __ATOMIC_RELEASE);
@@ -1012,6 +1024,9 @@ extern "C" void mc_thread_join(int id) {
     wm_check_thread(me);
     vc_join(wm_thr[me->id].vc, wm_thr[id].vc);
   }
+  // the real thread is parked, not gone (see thread_finished), so the shim detaches instead of joining;
+  // the happens-before edge a real join would give TSan is supplied by annotation
+  if (AnnotateHappensAfter) AnnotateHappensAfter(__FILE__, __LINE__, &g.thr[id].hb_token);
   me->nops++;
   me->pend_kind = MC_K_NONE;
   vlog("[%llu] T%d joined T%d\n", (unsigned long long)g.steps, me->id, id);
@@ -1562,8 +1577,20 @@ extern "C" int mc_run_execution(const McChildCfg* cfg) {
       raw_syscall6(SYS_exit_group, 40 + MC_ST_WALL, 0, 0, 0, 0, 0);
     }
   }
+  // every modelled thread has finished and is parked; let the real threads go in descending stack
+  // address order, each one completely before the next
+  for (;;) {
+    Thr* best = 0;
+    for (int i = 0; i < g.nthr; i++) {
+      Thr* t = &g.thr[i];
+      if (t->state == TS_FINISHED && !t->release && (!best || t->stack_addr > best->stack_addr)) best = t;
+    }
+    if (!best) break;
+    __atomic_store_n(&best->release, 1, __ATOMIC_RELEASE);
+    raw_futex(&best->release, FUTEX_WAKE, 1, 0);
+    reap_ended();
+  }
   pthread_join(pt, 0);
-  reap_ended();
   g.slot->final_hash = state_hash();
   g.active = 0;
   if (cfg->finish_hook) {
